@@ -101,6 +101,12 @@ int main(int argc, char** argv) {
     for (int i = 0; i < argc; i++) { fprintf(m, "%s\"", i ? "," : ""); hexs(m, argv[i], strlen(argv[i])); fprintf(m, "\""); }
     fprintf(m, "]}\n"); fclose(m); trace(line); free(line);
   }
+  /* VERIF_CLOSEOUT="key:1,...": the command detaches from ninja's pipe right away (like a tool that redirects or closes
+   * its stdout/stderr) and goes on working: ninja sees end-of-file long before the process exits */
+  if (envlookup("VERIF_CLOSEOUT", id) && !msvc) {
+    int nfd = open("/dev/null", O_WRONLY);
+    if (nfd >= 0) { dup2(nfd, 1); dup2(nfd, 2); if (nfd > 2) close(nfd); }
+  }
   /* --- snapshot the reads now (a command is a function of what it reads at start) */
   uint64_t h = 1469598103934665603ull;
   h = fnv(h, id, strlen(id)); h = fnv(h, "|", 1); h = fnv(h, variant, strlen(variant)); h = fnv(h, "|", 1);
